@@ -144,7 +144,8 @@ SPEC = dict(
              'C20_untouching_neighbour_does_not_interfere: for EVERY interleaving, register content and definition state, an object returns and '
              'transmits exactly what it does alone, whatever its own calls are, provided the calls on the other object do not touch a schedule '
              'definition; C20_requests_differ_refuted / C20_returned_value_changes_refuted: the two known findings as theorems with their witnesses.  '
-             'C20_shared_state_inventory: a whole-package scan regenerated on every run (class-level / module-level containers, globals, mutable '
+             'C20_set_mode_is_the_c19_model / C20_mode_roundtrip_in_interleavings: the model agrees with the single-object model of C19, whose round trip '
+             'therefore holds for an object inside every interleaving with an untouching neighbour.  C20_shared_state_inventory: a whole-package scan regenerated on every run (class-level / module-level containers, globals, mutable '
              'defaults, memoising decorators, every mutation site whose receiver is not fresh in the call or fresh per instance, the self-mutating '
              'sensor definition classes and their table rows) equals exactly what the model assumes is shared.  Everything outside the model (DT, ES, '
              'eco-mode v1, runtime data, transports, communication addresses) is covered by the interleaving search with the solo-run oracle.',
@@ -157,7 +158,8 @@ SPEC = dict(
     theorems=['C20_untouching_neighbour_does_not_interfere', 'C20_schedule_free_interleavings_are_independent', 'C20_touching_settings', 'C20_touching_modes',
               'C20_untouching_example', 'C20_requests_differ_refuted', 'C20_requests_differ_witness', 'C20_returned_value_changes_refuted',
               'C20_returned_value_changes_same_object', 'C20_shared_state_inventory', 'C20_schedule_read_value_is_the_model',
-              'C20_eco_v1_read_value_is_the_model', 'C20_decoding_has_no_hidden_state'],
+              'C20_eco_v1_read_value_is_the_model', 'C20_decoding_has_no_hidden_state', 'C20_set_mode_is_the_c19_model', 'C20_get_mode_is_the_c19_model',
+              'C20_mode_roundtrip_in_interleavings'],
     rule='model correspondence: seeded interleavings of 2..8 calls (scalar and group reads / writes, all operation modes incl. out-of-range arguments, '
          'get_operation_mode) on two ET objects (platform 205 / 745) with readable, half-readable and unreadable groups; interleaving search: fixed '
          'witnesses of the known finding + seeded interleavings of 2..5 calls per object (runtime data, settings, eco-mode groups, operation '
